@@ -179,8 +179,9 @@ Definition do_tick (fuel : nat) (m : mstate) (when : Z) (roots : list comp) (rea
 (* an interrupt raised at real time r by device c whose enclosing systems (outermost first,
    as (level, system component)) are [path]; the device lives in level [lvc] *)
 Definition raise_interrupt (m : mstate) (r : Z) (c : comp) (lvc : positive) (path : list (positive * comp)) : mstate :=
-  let st := stamp m r in
   let s := m_s m in
+  let tgt := match path with [] => c | (_, sys0) :: _ => sys0 end in
+  let st := match lookup tgt (wake_of s top) with Some w => Z.min (stamp m r) w | None => stamp m r end in
   match path with
   | [] => {| m_s := set_wake s top (upd c st (wake_of s top)); m_tprev := m_tprev m; m_real := m_real m;
              m_now := r; m_obs := m_obs m; m_ticks := m_ticks m |}
